@@ -1,0 +1,61 @@
+//go:build verif
+
+// Contracts for govc (see /verif/DESIGN.md). Comment-only file: with the
+// build tag off it is not part of the build, with it on it adds no code.
+
+package protocoltypes
+
+//@ # ======================= C12: groups, invitations, replication descriptor =======================
+//@ # linkkey(pk, secret): the one-way link key of a group (HKDF-SHA3 of the secret, bound to the group id)
+//@ spec func linkkey(pk Bytes, secret Bytes) Bytes = bslice(hkdf3(secret, bempty, pk), 0, 32)
+//@ # the signing public key a group designates: the explicit one of a descriptor, else the public half of the secret seed
+//@ spec func sigpub(signpub Bytes, secret Bytes) Bytes = ite(blen(signpub) != 0, signpub, pubof(edkey(secret)))
+
+//@ func (*Group).GetPubKey
+//@   for C12, C01, C05, C11
+//@   safety
+//@   requires m != nil
+//@   ensures ret1 == nil ==> ret0 != nil && fresh(ret0) && pkv(ret0) == bytes(m.PublicKey) && len(m.PublicKey) == 32
+//@   ensures ret1 != nil ==> ret0 == nil
+//@   ensures len(m.PublicKey) == 32 ==> ret1 == nil
+
+//@ func (*Group).GetSigningPrivKey
+//@   for C12, C19
+//@   safety
+//@   requires m != nil
+//@   ensures [C12.signing.priv] ret1 == nil ==> ret0 != nil && keytype(ret0) == 1 && skv(ret0) == edkey(bytes(m.Secret)) && len(m.Secret) == 32
+//@   ensures [C19.signing.short] len(m.Secret) != 32 ==> ret1 != nil
+
+//@ func (*Group).GetSigningPubKey
+//@   for C12
+//@   safety
+//@   requires m != nil
+//@   ensures [C12.signing.pub] ret1 == nil ==> ret0 != nil && pkv(ret0) == sigpub(bytes(m.SignPub), bytes(m.Secret))
+
+//@ # an invitation is valid exactly when its identifier is a 32-byte key that signed its secret
+//@ func (*Group).IsValid
+//@   for C12
+//@   safety
+//@   requires m != nil
+//@   ensures [C12.invitation.valid] (ret0 == nil) <==> (len(m.PublicKey) == 32 && verify(bytes(m.PublicKey), bytes(m.Secret), bytes(m.SecretSig)))
+
+//@ func ComputeLinkKey
+//@   for C12
+//@   safety
+//@   ensures [C12.linkkey] ret1 == nil ==> ret0 != nil && fresh(ret0) && bytes(ret0) == linkkey(bytes(publicKey), bytes(secret))
+
+//@ func (*Group).GetLinkKeyArray
+//@   for C12
+//@   safety
+//@   ensures [C12.linkkey.derived] ret1 == nil && (m == nil || len(m.LinkKey) != 32) ==> ret0 != nil && fresh(ret0)
+//@        && bytes(ret0) == linkkey(ite(m == nil, bempty, bytes(m.PublicKey)), ite(m == nil, bempty, bytes(m.Secret)))
+//@   ensures [C12.linkkey.explicit] ret1 == nil && m != nil && len(m.LinkKey) == 32 ==> ret0 != nil && fresh(ret0)
+//@        && (forall j {bat(bytes(ret0), j)} :: 0 <= j && j < 32 ==> bat(bytes(ret0), j) == bat(bytes(m.LinkKey), j))
+//@   loop 0 invariant m != nil && len(m.LinkKey) == 32 && -1 <= rangeindex && rangeindex < 32 && fresh(addr(arr))
+//@   loop 0 invariant forall j {bat(bytes(arr), j)} :: 0 <= j && j <= rangeindex ==> bat(bytes(arr), j) == bat(bytes(m.LinkKey), j)
+//@   loop 0 decreases 32 - rangeindex
+
+//@ func (*Group).GroupIDAsString
+//@   for C12
+//@   requires m != nil
+//@   ensures result == hexs(bytes(m.PublicKey))
